@@ -661,13 +661,24 @@ func vSttsTotal(s *mp4.SttsBox) uint64 {
 //
 //	payloadLen : zero(0|1) : timescale,timescale,...   (chunk offsets in the tables are relative to the mdat payload)
 //
-// First track is video, the others audio. Result: ok/<start of new mdat>/<its size field>/<bytes written>/
+// First track is video, the others audio, unless a 10th field gives one handler letter per track (v = vide, s = soun,
+// o = subt); an 11th field "mem" decodes the input mdat into memory instead of lazily.
+// Result: <payload base>/<old size without mdat>/<rest = that size minus the Size() of the table boxes>/
 //
-//	<samples per track>/<chunk offsets per track>/<mvhd duration>/<tkhd durations>
+//	ok/<start of new mdat>/<its size field>/<bytes written>/<samples per track>/<chunk offsets per track>/
+//	<mvhd duration>/<tkhd durations>/<checksum of the new mdat payload, - when it is not kept>
 func vVirt(stbls []*mp4.StblBox, a []string) string {
-	if len(a) != 9 {
+	if len(a) < 9 || len(a) > 11 {
 		return "badcase"
 	}
+	handlers := ""
+	if len(a) >= 10 {
+		handlers = strings.ReplaceAll(a[9], ",", "")
+		if len(handlers) != len(stbls) {
+			return "badcase"
+		}
+	}
+	memMode := len(a) == 11 && a[10] == "mem"
 	n := func(i int) uint64 { v, _ := strconv.ParseUint(a[i], 10, 64); return v }
 	tss := vU32s(a[8])
 	if len(tss) != len(stbls) {
@@ -699,6 +710,9 @@ func vVirt(stbls []*mp4.StblBox, a []string) string {
 		if i == 0 {
 			media = "video"
 		}
+		if handlers != "" {
+			media = map[byte]string{'v': "video", 's': "audio", 'o': "subtitle"}[handlers[i]]
+		}
 		hdlr, err := mp4.CreateHdlr(media)
 		if err != nil {
 			return "build=err"
@@ -706,7 +720,7 @@ func vVirt(stbls []*mp4.StblBox, a []string) string {
 		mdia.AddChild(hdlr)
 		minf := mp4.NewMinfBox()
 		mdia.AddChild(minf)
-		if i == 0 {
+		if media == "video" {
 			minf.AddChild(mp4.CreateVmhd())
 		} else {
 			minf.AddChild(mp4.CreateSmhd())
@@ -718,6 +732,16 @@ func vVirt(stbls []*mp4.StblBox, a []string) string {
 		stbl.Stsd = stbl.Children[0].(*mp4.StsdBox)
 		minf.AddChild(stbl)
 		moov.AddChild(trak)
+	}
+	// the bytes of the table boxes the crop resizes, by their own Size()
+	var tabSize uint64
+	for _, stbl := range stbls {
+		for _, ch := range stbl.Children {
+			switch ch.Type() {
+			case "stts", "ctts", "stsc", "stsz", "stss", "sdtp", "stco", "co64":
+				tabSize += ch.Size()
+			}
+		}
 	}
 	var between mp4.Box
 	pad := make([]byte, n(4))
@@ -775,7 +799,13 @@ func vVirt(stbls []*mp4.StblBox, a []string) string {
 	in := &vVirtFile{head: head.Bytes(), tail: tail.Bytes(), payLen: int64(payLen), zero: n(7) == 1}
 	res := "panic"
 	vTry(func() {
-		parsed, err := mp4.DecodeFile(in, mp4.WithDecodeMode(mp4.DecModeLazyMdat))
+		var parsed *mp4.File
+		var err error
+		if memMode {
+			parsed, err = mp4.DecodeFile(in)
+		} else {
+			parsed, err = mp4.DecodeFile(in, mp4.WithDecodeMode(mp4.DecModeLazyMdat))
+		}
 		if err != nil {
 			res = "decode=err"
 			return
@@ -819,9 +849,17 @@ func vVirt(stbls []*mp4.StblBox, a []string) string {
 			offs = append(offs, vOffsets(trak.Mdia.Minf.Stbl))
 			tks = append(tks, strconv.FormatUint(trak.Tkhd.Duration, 10))
 		}
-		res = fmt.Sprintf("ok/%d/%d/%d/%s/%s/%d/%s", mdatStart, mdatSize, w.n, strings.Join(ks, ","),
-			strings.Join(offs, "|"), out.Moov.Mvhd.Duration, strings.Join(tks, ","))
+		cks := "-"
+		if n(7) == 0 && uint64(mdatStart)+mdatSize <= uint64(len(w.head)) && mdatSize >= 8 {
+			var c uint64
+			for i, b := range w.head[mdatStart+8 : uint64(mdatStart)+mdatSize] {
+				c = (c + uint64(i+1)*uint64(b)) % 1000000007
+			}
+			cks = strconv.FormatUint(c, 10)
+		}
+		res = fmt.Sprintf("ok/%d/%d/%d/%s/%s/%d/%s/%s", mdatStart, mdatSize, w.n, strings.Join(ks, ","),
+			strings.Join(offs, "|"), out.Moov.Mvhd.Duration, strings.Join(tks, ","), cks)
 	})
 	oldSwm := uint64(len(in.head)) - inHdr + uint64(len(in.tail))
-	return fmt.Sprintf("virt=%d/%d/%s", base, oldSwm, res)
+	return fmt.Sprintf("virt=%d/%d/%d/%s", base, oldSwm, oldSwm-tabSize, res)
 }
